@@ -94,8 +94,24 @@ JudgeConcurrent(e) ==
   Tag(e.verifyFailures = 0, "Inv.Complete:concurrent/" \o e.size) \o
   Tag(e.falseAccepts = 0, "Inv.Sound:concurrent/" \o e.size)
 
+(* several goroutines verify with one object that comes straight from Sign / RecoverGroupSignature /
+   GeneratePubkey / AggregatePubkeys: the honest signature verifies, and verification leaves its
+   arguments as they were *)
+JudgeSharedObject(e) ==
+  Tag(e.verifyFailures = 0, "Inv.Complete:sharedObject/" \o e.kind) \o
+  Tag(e.objectsCorrupted = 0, "Inv.VerificationLeavesItsArguments:" \o e.kind)
+
+(* observations beyond the statement *)
+JudgeFailedKeyParse(e) == Tag(e.err /\ ~e.isValidAfterwards, "Ext.FailedKeyParseLeavesNoUsableKey:" \o e.class)
+JudgeKeyEncoding(e) == Tag(~e.parses \/ e.reserializesToInput, "Ext.PublicKeyHasOneEncoding:" \o e.enc)
+JudgePairNeg(e) == Tag(e.inverse, "Ext.PairingWithNegatedG2IsTheInverse")
+
 Judge(e) ==
   CASE e.event = "Verify"    -> JudgeVerify(e)
+    [] e.event = "SharedObject" -> JudgeSharedObject(e)
+    [] e.event = "FailedKeyParse" -> JudgeFailedKeyParse(e)
+    [] e.event = "KeyEncoding" -> JudgeKeyEncoding(e)
+    [] e.event = "PairNeg"   -> JudgePairNeg(e)
     [] e.event = "KeySig"    -> JudgeKeySig(e)
     [] e.event = "Concurrent" -> JudgeConcurrent(e)
     [] e.event = "MsgPair"   -> JudgeMsgPair(e)
